@@ -376,8 +376,17 @@ def u_independent_peer(ctx, u):
                     note = '; '.join(cl.log)
         except (OSError, ValueError) as e:
             note = 'peer: %s' % e
-        th.join(20)
+        th.join(90)
         det = dict(proto=pname, rep=rep, note=note, peer_log=getattr(cl, 'log', None))
+        if th.is_alive() or (note and 'timed out' in note):
+            # wall-clock limits are watchdogs, not verdicts: a starved machine makes this session inconclusive
+            ctx.stat('independent_peer_sessions_timed_out')
+            try:
+                c_end.shutdown(socket.SHUT_RDWR)
+            except OSError:
+                pass
+            th.join(20)
+            continue
         if not ctx.check(srv.ret == 1 and not th.is_alive(), 'independent-peer:library-server-did-not-complete:' + pname, server_ret=srv.ret, **det):
             for sk in (c_end, s_end):
                 sk.close()
@@ -401,13 +410,15 @@ def u_independent_peer(ctx, u):
                 got_down = cl.read_app_data()
         except OSError as e:
             note = 'peer: %s' % e
-        t2.join(10)
+        t2.join(90)
         if t2.is_alive():
+            ctx.stat('independent_peer_sessions_timed_out')
             try:
                 c_end.shutdown(socket.SHUT_RDWR)
             except OSError:
                 pass
-            t2.join(5)
+            t2.join(10)
+            continue
         r = res.get('up')
         ctx.check(bool(r) and r[0] == 1 and r[1] == up, 'independent-peer:client-data-not-delivered-intact:' + pname, sent_len=len(up),
                   got=repr(r)[:60], **det)
